@@ -467,7 +467,8 @@ def run(ctx):
         'combinations, all subsets of up to %d members as member objects / ints / names, to_values over all masks of the bit range. '
         'A case is distinct by (operation, argument, outcome kind, history family).' %
         (len(enums), nhist, len(EXTRA_VALUES), 'whole 16-bit range in 32 slices' if ctx.thorough else 'member neighbourhoods + 1500 random 16-bit values', 10))
-    ctx.coverage['exhaustive'] = '8-bit range per enum per history%s; all subsets per mask helper' % ('; 16-bit range for 16-bit-wire enums' if ctx.thorough else '')
+    ctx.coverage['exhaustive'] = True
+    ctx.coverage['exhaustive_scope'] = '8-bit range per enum per history%s; all subsets per mask helper' % ('; 16-bit range for 16-bit-wire enums' if ctx.thorough else '')
     ctx.trusted_base += [
         'Coq 8.16.1 kernel + vm_compute', 'extraction (ExtrOcamlBasic only) and ocaml/c17_driver.ml (hex <-> Z, char <-> ascii)',
         'stdlib enum.EnumMeta (__call__/__getitem__/__iter__/__reversed__ as value / name lookup and definition-order listing) modelled',
